@@ -1,10 +1,31 @@
 // ---------------------------------------------------------------------------------------------
 // FileMetadata: real struct (fields the contracts mention) + its accessors from
-// src/versioning/file_metadata.rs.  Dropped field: allowed_seeks (seek-compaction statistics).
+// src/versioning/file_metadata.rs.  All fields are kept; parking_lot::RwLock is an opaque stand-in (prelude/locks.rs).
 // ---------------------------------------------------------------------------------------------
-//@struct src/versioning/file_metadata.rs :: FileMetadata keep: file_number file_size smallest_key largest_key
+//@include prelude/locks.rs
+//@const src/config.rs :: SEEK_DATA_SIZE_THRESHOLD_KIB
+//@struct src/versioning/file_metadata.rs :: FileMetadata
 
 //@impl src/versioning/file_metadata.rs :: impl FileMetadata
+//@fn new props: C10
+//@sig
+    ensures r.file_number == file_number, r.file_size == 0, r.smallest_key is None, r.largest_key is None,
+//@endfn
+//@fn set_file_size props: C10
+//@sig
+    ensures final(self).file_size == file_size, final(self).file_number == old(self).file_number,
+        final(self).smallest_key == old(self).smallest_key, final(self).largest_key == old(self).largest_key, // [size-only]
+//@endfn
+//@fn set_smallest_key props: C10
+//@sig
+    ensures final(self).smallest_key == smallest_key, final(self).file_number == old(self).file_number,
+        final(self).file_size == old(self).file_size, final(self).largest_key == old(self).largest_key,
+//@endfn
+//@fn set_largest_key props: C10
+//@sig
+    ensures final(self).largest_key == largest_key, final(self).file_number == old(self).file_number,
+        final(self).file_size == old(self).file_size, final(self).smallest_key == old(self).smallest_key,
+//@endfn
 //@fn smallest_key
 //@sig
     requires self.smallest_key.is_some(),
